@@ -451,6 +451,44 @@ pub fn open_match<'a>(findings: &'a [Finding], property: &str, f: &Failure) -> O
 }
 
 // ------------------------------------------------------------------------------------------------
+// Watchdog: a single case that runs longer than VERIF_CASE_TIMEOUT seconds (default 120) makes the
+// run inconclusive (exit 2); the entropy of the case is saved so that it can be replayed.
+
+static WATCH: Mutex<Vec<Option<(Instant, Vec<u8>)>>> = Mutex::new(Vec::new());
+static WATCHDOG_STARTED: AtomicBool = AtomicBool::new(false);
+
+pub fn watch_set(slot: usize, data: Option<&[u8]>) {
+    let mut w = WATCH.lock().unwrap();
+    if w.len() <= slot {
+        w.resize(slot + 1, None);
+    }
+    w[slot] = data.map(|d| (Instant::now(), d.to_vec()));
+}
+
+pub fn start_watchdog(id: &'static str) {
+    if WATCHDOG_STARTED.swap(true, Ordering::SeqCst) {
+        return;
+    }
+    let limit: u64 = std::env::var("VERIF_CASE_TIMEOUT").ok().and_then(|s| s.parse().ok()).unwrap_or(120);
+    std::thread::spawn(move || loop {
+        std::thread::sleep(std::time::Duration::from_secs(1));
+        let hit: Option<Vec<u8>> = {
+            let w = WATCH.lock().unwrap();
+            w.iter().flatten().find(|slot| slot.0.elapsed().as_secs() >= limit).map(|s| s.1.clone())
+        };
+        if let Some(data) = hit {
+            let dir = format!("{}/replays", verif_root());
+            let _ = std::fs::create_dir_all(&dir);
+            let path = format!("{}/{}-hang.json", dir, id);
+            let v = json!({"property": id, "entropy": hex(&data), "oracle": "watchdog", "tag": "case_timeout", "message": format!("a single case ran longer than {limit} s")});
+            let _ = std::fs::write(&path, serde_json::to_string_pretty(&v).unwrap());
+            out(&format!("INCONCLUSIVE property={} a single case ran longer than {} s; entropy saved to {}", id, limit, path));
+            std::process::exit(2);
+        }
+    });
+}
+
+// ------------------------------------------------------------------------------------------------
 // Runner
 
 #[derive(Clone)]
@@ -506,6 +544,7 @@ pub fn run_one(check: &dyn Check, data: &[u8], ctx: &mut Ctx) -> (Result<(), Fai
 }
 
 pub fn run_generated(check: Arc<dyn Check>, cfg: &RunCfg, findings: &[Finding]) -> RunResult {
+    start_watchdog(check.id());
     let stop = Arc::new(AtomicBool::new(false));
     let shards = cfg.shards.max(1);
     let per = (cfg.cases + shards as u64 - 1) / shards as u64;
@@ -614,7 +653,9 @@ fn shard_run(
             // description while fewer than 2 samples were collected in this shard)
             ctx.want_desc = st.samples.len() < 2;
         }
+        watch_set(shard, Some(&data));
         let (r, hash) = run_one(check.as_ref(), &data, &mut ctx);
+        watch_set(shard, None);
         match r {
             Ok(()) => {
                 if counting {
@@ -720,12 +761,15 @@ pub fn replay_file(check: &dyn Check, path: &str) -> Result<(ReplayOutcome, Valu
     let text = std::fs::read_to_string(path).map_err(|e| format!("{path}: {e}"))?;
     let v: Value = serde_json::from_str(&text).map_err(|e| format!("{path}: {e}"))?;
     let data = unhex(v.get("entropy").and_then(|x| x.as_str()).unwrap_or(""));
+    start_watchdog(check.id());
+    watch_set(999, Some(&data));
     let mut ctx = Ctx {
         want_desc: true,
         strict: true,
         ..Default::default()
     };
     let (r, _) = run_one(check, &data, &mut ctx);
+    watch_set(999, None);
     if std::env::var("VERIF_SHOW_CASE").is_ok() {
         out(&serde_json::to_string_pretty(&ctx.desc.clone().unwrap_or(Value::Null)).unwrap_or_default());
     }
